@@ -53,7 +53,7 @@ PROPS = {
  ),
  "C04": dict(
     level="proof",
-    claim="Proof of shape law, source-index law and element law for tile (reps of equal and greater length), repeat along an axis (scalar repeats, incl. negative axis) and roll along an axis for EVERY shift magnitude and sign, ranks 1..3, every extent and index (compile-time and run-time axes); concatenate at index level: result shape (summed extent on the axis, failure exactly when another extent differs), and for every destination index which operand and which source index is read, run-time axis incl. negative; pad (shape = source + both widths; a coordinate maps to the source exactly outside the padding, view::pad reads the source element or the fill value); tril/triu (kept side exactly col-row <= k resp. >= k, identity index, 1-d source used as every row); eye (fill exactly on the k-th diagonal); expand (axis extent s+(s-1)*spacing; multiples of spacing+1 map to coordinate/(spacing+1), everything else is a fill position; run-time axis incl. negative); take along a run-time axis incl. negative (shape; source coordinate = listed entry, a negative entry counted from the end, inside the extent); diagonal for either sign of the offset (shape incl. diagonal length, both diagonal coordinates inside their extents, other coordinates in order); sliding_window (windowed axes shrink by w-1, window extents appended, source = position + offset; scalar window on a run-time axis incl. negative, and one window per axis); sibling side-consistency of paired locals in the anchor files (R-PAIR). The remaining operations of the property are not decided. where(c,x,y) on three differently shaped constant-shape operands has the broadcast shape and selects x or y by the broadcast condition at every index. (E1 view level, constant small shapes with symbolic element values: c04i_views, c04j_views) shape and every element of tile (short/long reps), repeat (axis, negative axis, no axis, per-element repeats incl. 0), roll (beyond-extent and negative shifts, negative axis, no axis, several axes), take (negative / repeated entries, negative axis), compress (constant condition), concatenate (axis, negative axis, operand order, no axis), stack / hstack / vstack / dstack / column_stack (matrices and vectors), split (sections and indices), sliding_window (all axes, one axis), diagonal (offsets of either sign, chosen and negative axes on rank 3), diagflat, tril / triu (k of either sign, batches), eye / identity / tri, full / zeros / ones (_like), arange on an integer grid, pad (per-side widths), resize (nearest neighbour) and expand (spacing, negative axis, several axes) equal the definition written against the source array. The same view-level obligations are also decided on fixed-dimension arrays whose shape is a RUN-TIME value (std::array<size_t,R> shape pinned to the listed extents by ASSUME): the library's run-time branches (loops over len(shape), maybe-typed results that must have a value). (c04_select ob_c04_roll_list) index::roll with a LIST of axes - fixed or bounded run-time length, scalar or per-axis shifts, repeated axes accumulating - shifts exactly the listed axes for every shape, position and shift. (c04j_views) linspace: shape (num), first element start, with endpoint last element stop, interior elements start + i*step bit-exact in the bounds' floating-point type, with and without endpoint, num 1..11.",
+    claim="Proof of shape law, source-index law and element law for tile (reps of equal and greater length), repeat along an axis (scalar repeats, incl. negative axis) and roll along an axis for EVERY shift magnitude and sign, ranks 1..3, every extent and index (compile-time and run-time axes); concatenate at index level: result shape (summed extent on the axis, failure exactly when another extent differs), and for every destination index which operand and which source index is read, run-time axis incl. negative; pad (shape = source + both widths; a coordinate maps to the source exactly outside the padding, view::pad reads the source element or the fill value); tril/triu (kept side exactly col-row <= k resp. >= k, identity index, 1-d source used as every row); eye (fill exactly on the k-th diagonal); expand (axis extent s+(s-1)*spacing; multiples of spacing+1 map to coordinate/(spacing+1), everything else is a fill position; run-time axis incl. negative); take along a run-time axis incl. negative (shape; source coordinate = listed entry, a negative entry counted from the end, inside the extent); diagonal for either sign of the offset (shape incl. diagonal length, both diagonal coordinates inside their extents, other coordinates in order); sliding_window (windowed axes shrink by w-1, window extents appended, source = position + offset; scalar window on a run-time axis incl. negative, and one window per axis); sibling side-consistency of paired locals in the anchor files (R-PAIR). The remaining operations of the property are not decided. where(c,x,y) on three differently shaped constant-shape operands has the broadcast shape and selects x or y by the broadcast condition at every index. (E1 view level, constant small shapes with symbolic element values: c04i_views, c04j_views) shape and every element of tile (short/long reps), repeat (axis, negative axis, no axis, per-element repeats incl. 0), roll (beyond-extent and negative shifts, negative axis, no axis, several axes), take (negative / repeated entries, negative axis), compress (constant condition), concatenate (axis, negative axis, operand order, no axis), stack / hstack / vstack / dstack / column_stack (matrices and vectors), split (sections and indices), sliding_window (all axes, one axis), diagonal (offsets of either sign, chosen and negative axes on rank 3), diagflat, tril / triu (k of either sign, batches), eye / identity / tri, full / zeros / ones (_like), arange on an integer grid, pad (per-side widths), resize (nearest neighbour) and expand (spacing, negative axis, several axes) equal the definition written against the source array. The same view-level obligations are also decided on fixed-dimension arrays whose shape is a RUN-TIME value (std::array<size_t,R> shape pinned to the listed extents by ASSUME): the library's run-time branches (loops over len(shape), maybe-typed results that must have a value). (c04_select ob_c04_roll_list) index::roll with a LIST of axes - fixed or bounded run-time length, scalar or per-axis shifts, repeated axes accumulating - shifts exactly the listed axes for every shape, position and shift. (c04j_views) linspace: shape (num), first element start, with endpoint last element stop, interior elements start + i*step bit-exact in the bounds' floating-point type, with and without endpoint, num 1..11. arange over an integer grid with SYMBOLIC bounds below 2^40: len = ceil((stop-start)/step) (positive, negative step, empty range) and element i = start + i*step for a symbolic index.",
     note=E1_NOTE,
     technique=E1_TECH,
     e1=[dict(tu="c04_select.cpp"), dict(tu="c03b_dynamic.cpp"), dict(tu="c04b_concat.cpp"), dict(tu="c15b_pad_matmul.cpp"), dict(tu="c02c_padview.cpp"), dict(tu="c04d_tri.cpp"), dict(tu="c04e_window.cpp"), dict(tu="c04c_take.cpp"), dict(tu="c04f_diagonal.cpp"), dict(tu="c04g_expand.cpp"), dict(tu="c04h_cumsum.cpp"), dict(tu="c07c_where.cpp"), dict(tu="c04i_views.cpp"), dict(tu="c04j_views.cpp"), dict(tu="c04i_views_rt.cpp"), dict(tu="c04j_views_rt.cpp"), dict(tu="c07c_where_rt.cpp"), dict(tu="c04k_resize_enum.cpp"), dict(tu="c09b_bounded_values.cpp"), dict(tu="c02d_capacity2.cpp")],
